@@ -17,7 +17,8 @@ public:
   executor_type get_executor() const noexcept { return _ex; }
   std::size_t expires_after(const duration& d) {
     std::size_t n = cancel();
-    bool mx; int64_t ms = vk::clamp_ms(std::chrono::duration_cast<std::chrono::nanoseconds>(d).count(), mx);
+    int64_t ns = std::chrono::duration_cast<std::chrono::nanoseconds>(d).count(); _r->dur_ns = ns;
+    bool mx; int64_t ms = vk::clamp_ms(ns, mx);
     _r->dur_ms = ms; _r->max_wait = mx; _r->deadline_ms = mx ? INT64_MAX : vk_now_ms + ms;
     return n;
   }
